@@ -1215,6 +1215,11 @@ impl<'a, const C: usize, const R: usize, T: 'a + Copy + std::fmt::Debug> Layout<
                         // the case of repeating do_action, so there is currently no harm in doing
                         // this. Other action types are more problematic though.
                         for other_coord in pq.iter().copied() {
+                            if other_coord == coord {
+                                // Done above. A second run on the same coordinate would look like
+                                // a re-press, which e.g. cancels a pcancel one-shot right away.
+                                continue;
+                            }
                             self.do_action(
                                 tap,
                                 other_coord,
@@ -1235,6 +1240,9 @@ impl<'a, const C: usize, const R: usize, T: 'a + Copy + std::fmt::Debug> Layout<
                                     | Action::Layer(_)
                             ) {
                                 for other_coord in pq.iter().copied() {
+                                    if other_coord == coord {
+                                        continue;
+                                    }
                                     self.do_action(
                                         ac,
                                         other_coord,
